@@ -601,8 +601,10 @@ def random_spec(rng, sid, nmin=3, nmax=6, external=False, decoy=False, struct_va
                 for t_ in g:
                     sup[t_] = p
         cands = [f['provides'] for f in funcs if f['name'] != 'NewApp' and not f.get('decoy') and types[f['provides']]['form'] in ('ptr', 'val')]
+        bound_impls = [e['impl'] for e in elems if e['kind'] == 'bind' and e['impl'] in cands]
         if cands:
-            t2 = rng.choice(cands)
+            # prefer the implementation type of a binding: the second injector then lists its provider WITHOUT the binding
+            t2 = rng.choice(bound_impls) if bound_impls and rng.random() < 0.6 else rng.choice(cands)
             need, todo, args2 = [], [t2], []
             while todo:
                 x = todo.pop()
@@ -622,7 +624,7 @@ def random_spec(rng, sid, nmin=3, nmax=6, external=False, decoy=False, struct_va
                 if (k_ == 'func' and e['name'] in ids) or (k_ == 'value' and 'val:' + e['type'] in ids) or (k_ == 'ifacevalue' and 'ival:' + e['iface'] in ids) \
                         or (k_ == 'struct' and 'struct:' + e['type'] in ids) \
                         or (k_ == 'fieldsof' and any(('fld:%s.%s' % (e['type'], f_)) in ids for f_ in e['fields'])) \
-                        or (k_ == 'bind' and any(e['iface'] in g for p in need for g in p['provides'])):
+                        or (k_ == 'bind' and (t2 == e['iface'] or any(e['iface'] in p['requires'] for p in need))):
                     idx.append(i_)
             # wire rejects unused providers: a FieldsOf element listing a field nobody needs, or a Bind nobody needs, would be one
             okk = True
